@@ -46,6 +46,8 @@ type CtlListener struct {
 	unarmedEnters int
 	closedReturns int // Accept calls that returned the closed error
 	hookSetDeadline func()
+	// closeLinger: Close marks the listener closed at once and returns only after this long
+	closeLinger time.Duration
 	// hookSetDeadlineBefore runs (once) inside the next SetDeadline call BEFORE the new deadline takes effect: whatever the
 	// hook makes happen lies between the accept loop's decision and the moment its deadline lands
 	hookSetDeadlineBefore func()
@@ -142,13 +144,19 @@ func (l *CtlListener) Accept() (net.Conn, error) {
 
 func (l *CtlListener) Close() error {
 	l.mu.Lock()
-	defer l.mu.Unlock()
 	l.closeCalls++
 	l.rec("listener-close", "")
 	if l.closed {
+		l.mu.Unlock()
 		return &net.OpError{Op: "close", Net: "ctl", Addr: ctlAddr{}, Err: net.ErrClosed}
 	}
 	l.closed = true
+	linger := l.closeLinger
+	l.mu.Unlock()
+	// the listener is closed (a parked Accept returns) but Close itself takes a while to return
+	if linger > 0 {
+		time.Sleep(linger)
+	}
 	return nil
 }
 
